@@ -3,11 +3,18 @@
 //	hop <header map> <canon>   a client header map as a frontend builds it (keys through the real
 //	                           CanonicalHeaderKey when canon=1) -> Request copy -> REAL httpProtoSet +
 //	                           hopByHopHeaderRemove -> REAL Request.Write;   result: ok|err <hex bytes>
+//
+//	rdh <hex raw>   WIRE BYTES of one HTTP/1.x request (strict syntax, no body) -> the REAL bfe_http.ReadRequest (readTransfer
+//	                included) -> copy, httpProtoSet, hopByHopHeaderRemove -> Request.Write;  result: reject | ok|err <hex bytes>.
+//	                The driver parses the same bytes itself: the client's fields are what was on the wire, not what the
+//	                read path left in the map.
 package main
 
 import (
 	"bytes"
 	"strings"
+
+	"github.com/bfenetworks/bfe/bfe_bufio"
 
 	"bfeverif/harness/internal/c25lib"
 	"bfeverif/harness/internal/vh"
@@ -15,7 +22,30 @@ import (
 	"github.com/bfenetworks/bfe/bfe_server"
 )
 
+func execWire(hexraw string) string {
+	raw, ok := vh.UnHex(hexraw)
+	if !ok {
+		return "bad-op"
+	}
+	req, err := bfe_http.ReadRequest(bfe_bufio.NewReader(bytes.NewReader(raw)), bfe_http.MaxUriSize)
+	if err != nil {
+		return "reject"
+	}
+	outreq := new(bfe_http.Request)
+	*outreq = *req
+	bfe_server.VerifHttpProtoSet(outreq)
+	bfe_server.VerifHopByHopHeaderRemove(outreq, req)
+	var buf bytes.Buffer
+	if err := outreq.Write(&buf); err != nil {
+		return "err " + vh.Hex(buf.Bytes())
+	}
+	return "ok " + vh.Hex(buf.Bytes())
+}
+
 func exec(op string) string {
+	if f := strings.Split(op, " "); len(f) == 2 && f[0] == "rdh" {
+		return execWire(f[1])
+	}
 	f := strings.Split(op, " ")
 	if len(f) != 3 || f[0] != "hop" {
 		return "bad-op"
@@ -73,7 +103,57 @@ func randCase(r *vh.Rand, s string) string {
 
 func ows(r *vh.Rand) string { return r.Pick("", "", " ", "\t", "  ") }
 
+// genWire: a strict HTTP/1.x request text: Host: a, plain fields, and the Connection header as 1-3 FIELD LINES whose first
+// value is close / keep-alive (any case) half of the time; later lines and list elements name fields that are present.
+func genWire(r *vh.Rand) string {
+	var b strings.Builder
+	b.WriteString("GET / " + r.Pick("HTTP/1.1", "HTTP/1.1", "HTTP/1.0") + "\r\n")
+	line := func(n, v string) { b.WriteString(randCase(r, n) + ":" + ows(r) + v + ows(r) + "\r\n") }
+	line("Host", "a")
+	var present []string
+	for i, n := 0, r.Intn(4); i < n; i++ {
+		name := r.Pick("Accept", "Cookie", "X-Foo", "X-Bar", "X-Hop-Secret", "User-Agent", "X-Real-Ip")
+		present = append(present, name)
+		line(name, r.Pick("1", "abc", "a, b", "x y"))
+	}
+	tok := func() string {
+		if len(present) > 0 && r.Chance(2, 3) {
+			return randCase(r, present[r.Intn(len(present))])
+		}
+		return r.Pick("x-hop-secret", "upgrade", "te", "Nope", "keep-alive", "close")
+	}
+	nl := r.Intn(4)
+	for i := 0; i < nl; i++ {
+		var v string
+		switch {
+		case i == 0 && r.Chance(1, 2):
+			v = r.Pick("close", "Close", "CLOSE", "keep-alive", "Keep-Alive", "close, " + tok(), "")
+		default:
+			n := r.Range(1, 2)
+			var ts []string
+			for j := 0; j < n; j++ {
+				ts = append(ts, ows(r)+tok())
+			}
+			v = strings.Join(ts, ",")
+		}
+		line("Connection", v)
+		if r.Chance(1, 3) { // other fields between the Connection lines
+			name := r.Pick("X-Hop-Secret", "X-Foo", "Keep-Alive", "Upgrade")
+			present = append(present, name)
+			line(name, r.Pick("1", "timeout=5", "websocket"))
+		}
+	}
+	if r.Chance(1, 4) {
+		line(r.Pick("Keep-Alive", "Upgrade", "TE", "Proxy-Authorization"), r.Pick("timeout=5", "h2c", "trailers", "gzip", "Basic x"))
+	}
+	b.WriteString("\r\n")
+	return "rdh " + vh.Hex([]byte(b.String()))
+}
+
 func gen(r *vh.Rand) string {
+	if r.Chance(1, 3) {
+		return genWire(r)
+	}
 	h := map[string][]string{}
 	canon := !r.Chance(1, 10)
 	add := func(name, v string) {
@@ -127,6 +207,14 @@ func gen(r *vh.Rand) string {
 }
 
 func pre(emit func(string), thorough bool) {
+	for _, raw := range []string{
+		"GET / HTTP/1.1\r\nHost: a\r\nConnection: close\r\nConnection: x-hop-secret\r\nX-Hop-Secret: 1\r\n\r\n",
+		"GET / HTTP/1.1\r\nHost: a\r\nConnection: keep-alive\r\nX-Hop-Secret: 1\r\nConnection: X-HOP-SECRET , upgrade\r\nUpgrade: h2c\r\n\r\n",
+		"GET / HTTP/1.0\r\nHost: a\r\nconnection: Close\r\nconnection: x-foo\r\nx-foo: 1\r\nAccept: */*\r\n\r\n",
+		"GET / HTTP/1.1\r\nHost: a\r\nConnection: close, x-hop-secret\r\nX-Hop-Secret: 1\r\n\r\n",
+	} {
+		emit("rdh " + vh.Hex([]byte(raw)))
+	}
 	H := func(kv ...string) string {
 		h := map[string][]string{}
 		for i := 0; i+1 < len(kv); i += 2 {
